@@ -581,6 +581,10 @@ def choose(state, avail, rng, pol):
             a = s.max_completion_betting_or_raising_to_amount
         else:
             a = rng.choice(c)
+        if a is not None and pol.get('amount_cast') == 'Decimal' and \
+                isinstance(a, int) and rng.random() < 0.6:
+            from decimal import Decimal
+            a = Decimal(a)
         args = [] if a is None else [a]
     elif op == 'select_runout_count':
         room = min(3, runout_room(s))
